@@ -33,10 +33,21 @@ def seeded_table():
         out.append(f"| {m['id']} | {m['summary']} | {m['needs_to_manifest']} | {det} |")
     return '\n'.join(out)
 
+def benign_table():
+    idx = json.load(open(os.path.join(V, 'benign', 'INDEX.json')))
+    out = ['| round | refactorings | silent on all 20 checks | alarming (property checks that raise) |', '|---|---|---|---|']
+    names = {'r1': 'round 1 (extraction, early returns, guarded defers, locals)', 'r2': 'round 2 (renames, getters/fields, receivers, mirrored tests, loops, inlined-and-deleted helpers)', 'r3': 'round 3 (everyday clean-ups, unseen by the machinery when written)'}
+    for rn in ('r1', 'r2', 'r3'):
+        es = [e for e in idx if e['id'].startswith(rn + '-')]
+        bad = [e for e in es if not e.get('silent')]
+        lst = '; '.join(f"{e['id']} ({', '.join(e.get('alarms', []))})" for e in bad) or 'none'
+        out.append(f"| {names[rn]} | {len(es)} | {len(es) - len(bad)} | {lst} |")
+    return '\n'.join(out)
+
 def main():
     p = os.path.join(V, 'DESIGN.md')
     s = open(p).read()
-    for name, fn in (('rules', rules_table), ('corpus', corpus_table), ('seeded', seeded_table)):
+    for name, fn in (('rules', rules_table), ('corpus', corpus_table), ('seeded', seeded_table), ('benign', benign_table)):
         a, b = f'<!-- GEN:{name} -->', f'<!-- /GEN:{name} -->'
         if a in s and b in s:
             s = s[:s.index(a) + len(a)] + '\n' + fn() + '\n' + s[s.index(b):]
